@@ -379,6 +379,39 @@ def step (s : State) : Op → State × Out
   | .preTick => ({ s with numCreations := 0, numDeletions := 0 }, .success)
   | .tick => ({ s with folders := s.folders.map Folder.restoringTimestep }, .success)
 
+/-! ### describe_state -/
+
+/-- The dict a Python comprehension `{k(x): v(x) for x in xs}` builds, as its item list: a repeated key keeps its
+first position and takes the latest value. -/
+def pyDict {β} (l : List (Name × β)) : List (Name × β) :=
+  l.foldl (fun acc p =>
+    if acc.any (fun q => q.1 == p.1) then acc.map (fun q => if q.1 == p.1 then p else q) else acc ++ [p]) []
+
+/-- The structural part of `Folder.describe_state()`: its own uuid and the two name-keyed dicts (each file entry
+carries that file's uuid). -/
+structure FolderDesc where
+  id : Nat
+  files : List (Name × Nat)
+  deletedFiles : List (Name × Nat)
+deriving DecidableEq, Repr
+
+def Folder.describe (g : Folder) : FolderDesc :=
+  { id := g.id, files := pyDict (g.files.map fun f => (f.name, f.id)),
+    deletedFiles := pyDict (g.deletedFiles.map fun f => (f.name, f.id)) }
+
+/-- The structural part of `FileSystem.describe_state()`. -/
+structure Desc where
+  folders : List (Name × FolderDesc)
+  deletedFolders : List (Name × FolderDesc)
+  numCreations : Nat
+  numDeletions : Nat
+deriving DecidableEq, Repr
+
+def describe (s : State) : Desc :=
+  { folders := pyDict (s.folders.map fun g => (g.name, g.describe)),
+    deletedFolders := pyDict (s.deletedFolders.map fun g => (g.name, g.describe)),
+    numCreations := s.numCreations, numDeletions := s.numDeletions }
+
 /-! ### the request syntax -/
 
 def verbOf : String → Verb
